@@ -784,8 +784,6 @@ func (op *jal) Run(ctx *Context, labels map[string]int32, pc int32, memory []int
 	if !ok {
 		return Execution{}, fmt.Errorf("label %s does not exist", op.label)
 	}
-	// TODO Shouldn't be a direct write
-	ctx.Registers[Ra] = pc
 	register, value := IsRegisterChange(op.rd, pc+4)
 	return Execution{
 		RegisterChange: true,
